@@ -421,7 +421,13 @@ theorem lastSeg_false {s : Str} (h : ∀ c ∈ s, c ≠ ';') : lastSegHasSemi s 
     · simp [ih']
 
 theorem simpleUrl_labelOk (l : Str) (hl : LabelChars l) : LabelOk simpleUrl l := by
-  have hu : skolemizeLabel simpleUrl l = defaultAuthority ++ (rdflibSkolemGenid ++ l) := rfl
+  have hroot : (splitRoot 2 defaultAuthority).1 = defaultAuthority := by decide
+  have hu : skolemizeLabel simpleUrl l = defaultAuthority ++ (rdflibSkolemGenid ++ l) := by
+    show simpleJoin defaultAuthority (rdflibSkolemGenid ++ l) = _
+    have hcons : rdflibSkolemGenid ++ l = '/' :: (rdflibSkolemGenid.tail ++ l) := by
+      rw [rdflibSkolemGenid_eq]; rfl
+    rw [hcons]
+    simp only [simpleJoin, hroot]
   have hpl : ∀ c ∈ rdflibSkolemGenid ++ l, c ≠ '?' ∧ c ≠ '#' ∧ c ≠ ';' := by
     intro c hc
     rcases List.mem_append.mp hc with hc | hc
